@@ -362,13 +362,13 @@ func init() {
 				Thorough: grid([]string{"M", "legacy", "len", "op", "sym"}, []int{3, 8, 8000, 8001, 8192, 55440}, []int{1}, []int{1}, []int{0, 1, 2, 3, 7, 10, 11, 12, 13, 14, 15}, []int{0})},
 			{Name: "C16_listing", Expect: []string{"end", "listing-denotes-instruction"}, Witnesses: 4,
 				Quick:    grid([]string{"M", "legacy", "len", "op", "sym"}, []int{3, 8, 8000, 8001, 55440}, []int{0, 1}, []int{1, 2}, []int{1}, []int{1}),
-				Thorough: grid([]string{"M", "legacy", "len", "op", "sym"}, []int{3, 8, 8000, 8001, 8192, 55440}, []int{0, 1}, []int{1, 2, 3}, []int{1, 2}, []int{1})},
+				Thorough: grid([]string{"M", "legacy", "len", "op", "sym"}, []int{3, 8, 8000, 8001, 8192, 55440}, []int{0, 1}, []int{1, 2}, []int{1, 2}, []int{1})},
 			{Name: "C16_listing", Expect: []string{"end", "listing-denotes-instruction"}, Witnesses: 4,
 				Quick:    grid([]string{"M", "legacy", "len", "op", "sym"}, []int{8, 80}, []int{2}, []int{1}, []int{1, 0, 4, 10}, []int{0}),
 				Thorough: grid([]string{"M", "legacy", "len", "op", "sym"}, []int{3, 8, 80, 800}, []int{2}, []int{1}, seq(0, 16), []int{0})},
 			{Name: "C16_listing", Expect: []string{"end", "listing-denotes-instruction"}, Witnesses: 4,
 				Quick:    grid([]string{"M", "legacy", "len", "op", "sym", "api"}, []int{8, 8000}, []int{0, 1}, []int{2}, []int{1}, []int{1}, []int{1}),
-				Thorough: grid([]string{"M", "legacy", "len", "op", "sym", "api"}, []int{3, 8, 8000, 8001, 55440}, []int{0, 1}, []int{1, 2, 3}, []int{1}, []int{1}, []int{1})},
+				Thorough: grid([]string{"M", "legacy", "len", "op", "sym", "api"}, []int{3, 8, 8000, 8001, 55440}, []int{0, 1}, []int{1, 2}, []int{1}, []int{1}, []int{1})},
 		},
 	})
 
